@@ -51,7 +51,8 @@ def rule_to_error(ctx):
                 if f_ == "hasattr":
                     return isinstance(a_[0], Sym) and a_[1] in a_[0].attrs
                 if f_ == "isinstance":
-                    if a_[0] is exc and isinstance(a_[1], Sym) and a_[1].name == "ApplicationError":
+                    # exception.Error is the base of ApplicationError; the other exception kinds of the grid are plain Exception subclasses
+                    if a_[0] is exc and isinstance(a_[1], Sym) and a_[1].name in ("ApplicationError", "Error"):
                         return kind == "app"
                     return a_[0] is exc and a_[1] in mro
                 if f_ == "type":
@@ -69,7 +70,7 @@ def rule_to_error(ctx):
                 table[cls] = [Sym("pattern", _uri="com.registered.error")]
             table[Sym("other-class")] = [Sym("pattern", _uri="com.other")]
             env = {prm[1]: 68, prm[2]: 4711, prm[3]: exc, prm[4]: tb, "self": Sym("session"), "self._ecls_to_uri_pat": table, "self._payload_codec": None, "str": "str",
-                   "exception.ApplicationError": Sym("ApplicationError")}
+                   "exception.ApplicationError": Sym("ApplicationError"), "exception.Error": Sym("Error")}
             if len(prm) > 5:
                 env[prm[5]] = None
             t = Tiny(env, default_call=default)
